@@ -455,6 +455,10 @@ func init() {
 	checks["C12"] = func(p *Program, r *Report) {
 		checkNames(p, r)
 		checkFsSubset(p, r, []string{"NAMECHECK-GATE"}, map[string]int{"NAMECHECK-GATE": 2})
+		// a name that was deleted stays deleted: a compaction above the bottom of the
+		// stack reads the raw view and keeps tombstones (otherwise the ref they shadow
+		// comes back to life next to refs created under or above it since)
+		copyRules(p, r, func(p *Program, r *Report) { checkCompactionTables(p, r, false, true) }, "COMPACT-RAW", "DT-TOMB-REF")
 		// the view the additions are validated against must hide deleted refs
 		r2 := newReport(r.Property, r.Tier, r.Seed)
 		checkMergedView(p, r2)
